@@ -60,6 +60,22 @@ func main() {
 				os.Exit(1)
 			}
 			fmt.Println("no violation")
+		case "C07W":
+			var rp exclWireReplay
+			a.LoadReplay(&rp)
+			w := NewWorld(u, DefaultConfig)
+			for _, c := range annotatedCases(a.Gen, u) {
+				if c.name != rp.Case {
+					continue
+				}
+				kind, detail := c.run(w)
+				fmt.Println("case", c.name)
+				if kind != "" {
+					fmt.Println("FAIL:", kind, detail)
+					os.Exit(1)
+				}
+			}
+			fmt.Println("no violation")
 		case "C16":
 			var rp batchReplay
 			a.LoadReplay(&rp)
@@ -119,6 +135,8 @@ func main() {
 	switch a.Part {
 	case "C02":
 		partC02(a, rep, univName, u)
+	case "C07W":
+		partC07W(a, rep, univName, u)
 	case "C08":
 		partC08(a, rep, univName, u)
 	case "C16":
